@@ -53,6 +53,10 @@ func (e *Engine) VerifyFunc(fn *ssa.Function, fc *FuncContract) (res *FuncResult
 	st.alloc = ctx.Fresh("alloc0", "Int")
 	ctx.Fact(fmt.Sprintf("(>= %s 1)", st.alloc))
 	f.alloc0 = st.alloc
+	if ctx.baseAlloc == nil {
+		ctx.baseAlloc = map[string]string{}
+	}
+	ctx.baseAlloc["0"] = st.alloc
 	st.heaps[sinceUnlockKey] = st.alloc
 	var args []string
 	for i, p := range fn.Params {
@@ -427,6 +431,15 @@ func (f *Frame) bindLocals(env *SpecEnv, at *ssa.BasicBlock, st *State) {
 			continue
 		}
 		for _, in := range b.Instrs {
+			if phi, isPhi := in.(*ssa.Phi); isPhi {
+				// a variable re-assigned on some branch: the merged value is its value from here on
+				if phi.Comment != "" && phi.Comment != "rangeindex" && phi.Comment != "rangeint.iter" {
+					if t, ok := f.tryVal(phi); ok {
+						env.vars[phi.Comment] = env.sv(t, phi.Type())
+					}
+				}
+				continue
+			}
 			d, ok := in.(*ssa.DebugRef)
 			if !ok {
 				continue
